@@ -622,6 +622,14 @@ func (e *env) handlerSweep(t *testing.T) {
 		e.out.Nontrivial("handler " + url + " " + kind + " " + errKind(res))
 		switch kind {
 		case "ok":
+			// GENERAL RULE (spec/C20.json, assumptions): a message that only the governance authority can sign (it has an
+			// `Authority` field) is executed — its handler must not panic — but on a branch that is discarded: the
+			// configuration it would set (parameters, oracle lists, token registrations) is operator-trusted, like the node's
+			// minimum gas prices; hostile input is what an arbitrary account can submit against a sanely configured chain
+			if reflect.ValueOf(msg).Elem().FieldByName("Authority").IsValid() {
+				e.out.Count("handler-authority-msg-not-committed")
+				break
+			}
 			write()
 			h.history = append(h.history, replayLine)
 			if len(h.history) > 300 {
